@@ -228,8 +228,8 @@ HARNESSES = [
             expect_reach=['mapped'], split=48),
     Harness('per_row_kernels', h_per_row, setup=setup_kernel,
             cases=[{'genes': 2, 'refs': 2}, {'genes': 3, 'refs': 1}],
-            thorough_cases=[{'genes': 2, 'refs': 2}, {'genes': 3, 'refs': 2},
-                            {'genes': 3, 'refs': 3}], split=16,
+            thorough_cases=[{'genes': 2, 'refs': 2}, {'genes': 3, 'refs': 2}],
+            split=16,
             funcs=['distance_utils.correlation_nearest_neighbors',
                    'correlation_dot', '_subtract_mean_and_normalize_cpu',
                    'cell_by_gene.utils.convert_to_cpm'],
